@@ -415,6 +415,86 @@ func c08BlockStmts(s *source, b *ast.BlockStmt) []string {
 	return out
 }
 
+// c08ReadKeysEffects emits the order of effects of readKeys as a typed list: the test of the opaque flag, the literal
+// return, lock / unlock, the read and the write of the package-level cache, the split, the returns.
+func c08ReadKeysEffects(s *source, e *emitter, rel string) {
+	fd := s.findFunc(rel, "readKeys")
+	var out []string
+	if fd == nil {
+		e.errors = append(e.errors, "function readKeys not found in "+rel)
+		out = []string{"MISSING"}
+	} else {
+		ast.Inspect(fd.Body, func(n ast.Node) bool {
+			switch x := n.(type) {
+			case *ast.IfStmt:
+				out = append(out, "test "+strings.Join(strings.Fields(s.src(x.Cond)), " "))
+			case *ast.ReturnStmt:
+				if len(x.Results) == 1 {
+					if _, ok := x.Results[0].(*ast.CompositeLit); ok {
+						out = append(out, "return-literal "+strings.Join(strings.Fields(s.src(x.Results[0])), " "))
+						return false
+					}
+				}
+				out = append(out, strings.Join(strings.Fields(s.src(x)), " "))
+				return false
+			case *ast.AssignStmt:
+				for _, l := range x.Lhs {
+					if ix, ok := l.(*ast.IndexExpr); ok {
+						out = append(out, "cache-write "+strings.Join(strings.Fields(s.src(ix)), " "))
+					}
+				}
+				for _, r := range x.Rhs {
+					if ix, ok := r.(*ast.IndexExpr); ok {
+						out = append(out, "cache-read "+strings.Join(strings.Fields(s.src(ix)), " "))
+					}
+				}
+			case *ast.CallExpr:
+				fun := strings.Join(strings.Fields(s.src(x.Fun)), " ")
+				switch {
+				case strings.HasSuffix(fun, ".Lock"):
+					out = append(out, "lock")
+				case strings.HasSuffix(fun, ".Unlock"):
+					out = append(out, "unlock")
+				case fun == "strings.FieldsFunc":
+					out = append(out, "split "+strings.Join(strings.Fields(s.src(x.Args[0])), " "))
+				}
+			case *ast.FuncLit:
+				out = append(out, "separator "+strings.Join(strings.Fields(s.src(x.Body)), " "))
+				return false
+			}
+			return true
+		})
+	}
+	e.stringList("readKeysEffects", "order of effects of `readKeys` in "+rel, out)
+	// every call site of getValue in the file, with its arguments (the opaque flag must be the unmarshaler's own option)
+	sites := []string{}
+	if f := s.file(rel); f != nil {
+		ast.Inspect(f, func(n ast.Node) bool {
+			if c, ok := n.(*ast.CallExpr); ok {
+				if id, ok := c.Fun.(*ast.Ident); ok && id.Name == "getValue" {
+					sites = append(sites, strings.Join(strings.Fields(s.src(c)), " "))
+				}
+			}
+			return true
+		})
+	}
+	e.stringList("getValueSites", "call sites of `getValue` in "+rel, sites)
+	// the statements of the option function WithOpaqueKeys returns
+	stmts := []string{"MISSING"}
+	if fd := s.findFunc(rel, "WithOpaqueKeys"); fd != nil {
+		ast.Inspect(fd.Body, func(n ast.Node) bool {
+			if fl, ok := n.(*ast.FuncLit); ok {
+				stmts = c08BlockStmts(s, fl.Body)
+				return false
+			}
+			return true
+		})
+	} else {
+		e.errors = append(e.errors, "function WithOpaqueKeys not found in "+rel)
+	}
+	e.stringList("withOpaqueKeysStmts", "body of the option `WithOpaqueKeys` in "+rel, stmts)
+}
+
 func c08Semantic(s *source, e *emitter) {
 	const fo = "core/mapping/fieldoptions.go"
 	const ut = "core/mapping/utils.go"
@@ -452,6 +532,12 @@ func c08Semantic(s *source, e *emitter) {
 		}
 		e.stringList(lean, "calls (with arguments) and returns of `"+fn+"` in "+rel, out)
 	}
+	// --- round 5: keys with dots — readKeys / getValue / getValueWithChainedKeys
+	e.shapeDef(s, um, "readKeys", "readKeysShape")
+	e.shapeDef(s, um, "getValueWithChainedKeys", "chainedKeysShape")
+	calls(um, "getValue", "getValueCalls")
+	calls(um, "getValueWithChainedKeys", "chainedKeysCalls")
+	c08ReadKeysEffects(s, e, um)
 	calls("core/mapping/yamlunmarshaler.go", "UnmarshalYamlBytes", "unmarshalYamlBytesCalls")
 	calls("core/mapping/tomlunmarshaler.go", "UnmarshalTomlBytes", "unmarshalTomlBytesCalls")
 	calls("core/mapping/yamlunmarshaler.go", "UnmarshalYamlReader", "unmarshalYamlReaderCalls")
